@@ -80,6 +80,12 @@ pub fn run(seed: u64, n: usize, out: &mut Out) {
         } else {
             (0..nr).map(|_| gen::rule(&mut r, &o)).collect()
         };
+        let mut scenario_url: Option<String> = None;
+        if r.pct(10) {
+            let (sl, su) = gen::partial_token_scenario(&mut r);
+            lines.extend(sl);
+            scenario_url = Some(su);
+        }
         if r.pct(30) {
             // order must not matter for the verdict: shuffle
             for i in (1..lines.len()).rev() {
@@ -104,7 +110,12 @@ pub fn run(seed: u64, n: usize, out: &mut Out) {
         }
         let case = Case { lines: lines.clone(), optimize, tags };
         for _ in 0..4 {
-            let (u, s, t) = if clustered { gen::cluster_url(&mut r, &lines) } else { gen::url_from(&mut r, &lines) };
+            let (mut u, s, t) = if clustered { gen::cluster_url(&mut r, &lines) } else { gen::url_from(&mut r, &lines) };
+            if let Some(su) = &scenario_url {
+                if r.pct(50) {
+                    u = su.clone();
+                }
+            }
             if !u.is_ascii() {
                 continue;
             }
